@@ -862,4 +862,188 @@ theorem diff_spec (a b : List β) :
 
 end Sets
 
+/-! ### computeFdr -/
+
+/-- sorting the (value, position) pairs by a total preorder on the values and projecting the
+positions gives a sorting permutation -/
+theorem sortIdx_spec (lt' : ℝ → ℝ → Bool)
+    (htrans : ∀ a b c, leOfLt lt' a b = true → leOfLt lt' b c = true → leOfLt lt' a c = true)
+    (htotal : ∀ a b, (leOfLt lt' a b || leOfLt lt' b a) = true) (v : List ℝ) :
+    let S := v.zipIdx.mergeSort (fun a b => leOfLt lt' a.1 b.1)
+    S.Perm v.zipIdx ∧ IsSortingPerm lt' v (S.map (·.2)) ∧ (S.map (·.2)).filterMap (fun i => v[i]?) = S.map (·.1) := by
+  intro S
+  have hperm : S.Perm v.zipIdx := List.mergeSort_perm _ _
+  have hfm : (S.map (·.2)).filterMap (fun i => v[i]?) = S.map (·.1) := by
+    rw [List.filterMap_map]
+    have : ∀ x ∈ S, ((fun i => v[i]?) ∘ (fun x : ℝ × Nat => x.2)) x = some x.1 := by
+      intro x hx
+      have := (hperm.mem_iff).mp hx
+      exact List.mem_zipIdx_iff_getElem?.mp this
+    exact filterMap_eq_map_of _ _ S this
+  refine ⟨hperm, ⟨?_, ?_⟩, hfm⟩
+  · have := hperm.map Prod.snd
+    rw [List.zipIdx_map_snd] at this
+    rw [List.range_eq_range']; exact this
+  · rw [hfm]
+    unfold SortedBy
+    rw [List.pairwise_map]
+    have := List.pairwise_mergeSort (le := fun (a b : ℝ × Nat) => leOfLt lt' a.1 b.1)
+      (fun a b c h1 h2 => htrans _ _ _ h1 h2) (fun a b => htotal _ _) v.zipIdx
+    exact this.imp (fun {a b} h => by simpa [leOfLt] using h)
+
+theorem setAt?_ok {β : Type} (v : List β) (i : Nat) (x : β) (h : i < v.length) : setAt? v i x = .ok (v.set i x) := by
+  simp [setAt?, h]
+
+/-- the scatter loop writes, for the entry at position `t` of the list, the value computed with
+`denom (k + t)`, provided the target positions are in range and pairwise distinct -/
+theorem fdrLoop_spec (n : Nat) (denom : Nat → (ℝ × Nat) → Nat) (S : List (ℝ × Nat)) (k : Nat) (out : List ℝ)
+    (hr : ∀ e ∈ S, e.2 < out.length) (hnd : (S.map (·.2)).Nodup) :
+    ∃ out', fdrLoop n denom k S out = .ok out' ∧ out'.length = out.length ∧
+      (∀ t e, S[t]? = some e → out'[e.2]? = some (e.1 * Scalar.ofInt n / Scalar.ofInt (denom (k + t) e))) ∧
+      (∀ j, j ∉ S.map (·.2) → out'[j]? = out[j]?) := by
+  induction S generalizing k out with
+  | nil => exact ⟨out, rfl, rfl, by simp, fun _ _ => rfl⟩
+  | cons e es ih =>
+    have he : e.2 < out.length := hr e (by simp)
+    simp only [List.map_cons, List.nodup_cons] at hnd
+    set out1 := out.set e.2 (e.1 * Scalar.ofInt n / Scalar.ofInt (denom k e)) with hout1
+    obtain ⟨out', h1, h2, h3, h4⟩ := ih (k + 1) out1 (by intro e' he'; rw [hout1, List.length_set]; exact hr e' (by simp [he'])) hnd.2
+    refine ⟨out', ?_, by rw [h2, hout1, List.length_set], ?_, ?_⟩
+    · simp only [fdrLoop, setAt?_ok out e.2 _ he, bind, Except.bind]; exact h1
+    · intro t e' ht
+      cases t with
+      | zero =>
+        simp only [List.getElem?_cons_zero, Option.some.injEq] at ht
+        subst ht
+        rw [h4 e.2 hnd.1, hout1, List.getElem?_set_self he]; simp
+      | succ t' =>
+        simp only [List.getElem?_cons_succ] at ht
+        have := h3 t' e' ht
+        rw [this, show k + 1 + t' = k + (t' + 1) by omega]
+    · intro j hj
+      simp only [List.map_cons, List.mem_cons, not_or] at hj
+      rw [h4 j hj.2, hout1, List.getElem?_set_ne (Ne.symm hj.1)]
+
+theorem flip_ltb_trans (a b c : ℝ) : leOfLt (fun x y => Scalar.ltb y x) a b = true →
+    leOfLt (fun x y => Scalar.ltb y x) b c = true → leOfLt (fun x y => Scalar.ltb y x) a c = true := by
+  simp only [leOfLt, Bool.not_eq_eq_eq_not, Bool.not_true, ltb_false_iff]; intro h1 h2; linarith
+
+theorem flip_ltb_total (a b : ℝ) :
+    (leOfLt (fun x y => Scalar.ltb y x) a b || leOfLt (fun x y => Scalar.ltb y x) b a) = true := by
+  simp only [leOfLt, Bool.or_eq_true, Bool.not_eq_eq_eq_not, Bool.not_true, ltb_false_iff]
+  exact le_total b a
+
+theorem computeFdr_spec (p : List ℝ) :
+    ∃ out, computeFdr p = .ok out ∧ IsFdrVia p out ((sortPValues p).map (·.2)) := by
+  have hS : sortPValues p = p.zipIdx.mergeSort (fun a b => leOfLt (fun x y => Scalar.ltb y x) a.1 b.1) := rfl
+  obtain ⟨hperm, hsort, hfm⟩ := sortIdx_spec (fun x y => Scalar.ltb y x) flip_ltb_trans flip_ltb_total p
+  rw [← hS] at hperm hsort hfm
+  have hr : ∀ e ∈ sortPValues p, e.2 < (List.replicate p.length (Scalar.zero : ℝ)).length := by
+    intro e he
+    have := List.snd_lt_of_mem_zipIdx ((hperm.mem_iff).mp he)
+    simpa using this
+  have hnd : ((sortPValues p).map (·.2)).Nodup := by
+    have := (hperm.map Prod.snd).nodup_iff
+    rw [this, List.zipIdx_map_snd]; exact List.nodup_range'
+  obtain ⟨out, h1, h2, h3, -⟩ := fdrLoop_spec p.length (fun k _ => p.length - k) (sortPValues p) 0 _ hr hnd
+  refine ⟨out, h1, hsort, by simpa using h2, ?_⟩
+  intro k hk
+  rw [List.length_map] at hk
+  have he : (sortPValues p)[k]? = some (sortPValues p)[k] := List.getElem?_eq_getElem hk
+  have hmem : (sortPValues p)[k] ∈ p.zipIdx := (hperm.mem_iff).mp (List.getElem_mem hk)
+  have hp : p[(sortPValues p)[k].2]? = some (sortPValues p)[k].1 := List.mem_zipIdx_iff_getElem?.mp hmem
+  have ho := h3 k _ he
+  simp only [fdrEntryOk, List.getElem?_map, he, Option.map_some, hp, ho, Nat.zero_add]
+  simp
+
+/-- before the repair every entry is `pᵢ·n/(i+1)`: the divisor is the position in the *input* -/
+theorem computeFdrOrig_spec (p : List ℝ) :
+    ∃ out, computeFdrOrig p = .ok out ∧ out.length = p.length ∧
+      ∀ (i : Nat) (x : ℝ), p[i]? = some x → out[i]? = some (x * (p.length : ℝ) / ((i : ℝ) + 1)) := by
+  have hS : sortPValues p = p.zipIdx.mergeSort (fun a b => leOfLt (fun x y => Scalar.ltb y x) a.1 b.1) := rfl
+  have hperm : (sortPValues p).Perm p.zipIdx := List.mergeSort_perm _ _
+  have hr : ∀ e ∈ sortPValues p, e.2 < (List.replicate p.length (Scalar.zero : ℝ)).length := by
+    intro e he
+    have := List.snd_lt_of_mem_zipIdx ((hperm.mem_iff).mp he)
+    simpa using this
+  have hnd : ((sortPValues p).map (·.2)).Nodup := by
+    have := (hperm.map Prod.snd).nodup_iff
+    rw [this, List.zipIdx_map_snd]; exact List.nodup_range'
+  obtain ⟨out, h1, h2, h3, -⟩ := fdrLoop_spec p.length (fun _ e => e.2 + 1) (sortPValues p) 0 _ hr hnd
+  refine ⟨out, h1, by simpa using h2, ?_⟩
+  intro i x hi
+  have hmem : (x, i) ∈ sortPValues p := (hperm.mem_iff).mpr (List.mk_mem_zipIdx_iff_getElem?.mpr hi)
+  obtain ⟨t, ht, het⟩ := List.getElem_of_mem hmem
+  have := h3 t (x, i) (by rw [List.getElem?_eq_getElem ht, het])
+  rw [this]; simp
+
+theorem count_le_of_strict_desc (D : List ℝ) (hd : D.Pairwise (fun a b => b < a)) (k : Nat) (hk : k < D.length) :
+    D.countP (fun y => decide (y ≤ D[k])) = D.length - k := by
+  have hbefore : ∀ j (hj : j < D.length), j < k → D[k] < D[j] := fun j hj hjk =>
+    (List.pairwise_iff_getElem.mp hd) j k hj hk hjk
+  have hafter : ∀ j (hj : j < D.length), k ≤ j → D[j] ≤ D[k] := by
+    intro j hj hkj
+    rcases Nat.lt_or_eq_of_le hkj with h | h
+    · exact le_of_lt ((List.pairwise_iff_getElem.mp hd) k j hk hj h)
+    · subst h; exact le_refl _
+  generalize D[k] = m at hbefore hafter
+  have h1 : (D.take k).countP (fun y => decide (y ≤ m)) = 0 := by
+    rw [List.countP_eq_zero]
+    intro y hy
+    obtain ⟨j, hj, rfl⟩ := List.mem_take_iff_getElem.mp hy
+    have hjk : j < k := (Nat.lt_min.mp hj).1
+    simp only [decide_eq_true_eq, not_le]; exact hbefore j (by omega) hjk
+  have h2 : (D.drop k).countP (fun y => decide (y ≤ m)) = (D.drop k).length := by
+    rw [List.countP_eq_length]
+    intro y hy
+    obtain ⟨j, hj, rfl⟩ := List.mem_drop_iff_getElem.mp hy
+    simp only [decide_eq_true_eq]
+    exact hafter (k + j) (by omega) (by omega)
+  have hsplit : D.countP (fun y => decide (y ≤ m)) =
+      (D.take k).countP (fun y => decide (y ≤ m)) + (D.drop k).countP (fun y => decide (y ≤ m)) := by
+    rw [← List.countP_append, List.take_append_drop]
+  rw [hsplit, h1, h2, List.length_drop]; omega
+
+/-- for pairwise distinct p-values the repaired `computeFdr` is the Benjamini–Hochberg formula
+`pᵢ·n / rank(pᵢ)` with `rank(pᵢ) = #{j | pⱼ ≤ pᵢ}` -/
+theorem computeFdr_rank (p : List ℝ) (hnd : p.Nodup) :
+    ∃ out, computeFdr p = .ok out ∧ out.length = p.length ∧
+      ∀ (i : Nat) (x : ℝ), p[i]? = some x →
+        out[i]? = some (x * (p.length : ℝ) / ((p.countP (fun y => decide (y ≤ x)) : Nat) : ℝ)) := by
+  obtain ⟨out, hout, ⟨hperm', hsorted⟩, hlen, hent⟩ := computeFdr_spec p
+  refine ⟨out, hout, hlen, ?_⟩
+  intro i x hi
+  set S := sortPValues p with hSdef
+  have hperm : S.Perm p.zipIdx := List.mergeSort_perm _ _
+  have hmem : (x, i) ∈ S := (hperm.mem_iff).mpr (List.mk_mem_zipIdx_iff_getElem?.mpr hi)
+  obtain ⟨k, hk, hek⟩ := List.getElem_of_mem hmem
+  have := hent k (by simpa using hk)
+  have hSk : S[k]? = some (x, i) := by rw [List.getElem?_eq_getElem hk, hek]
+  simp only [fdrEntryOk, List.getElem?_map, hSk, Option.map_some, hi] at this
+  -- the list of values in ranking order
+  set D := S.map (·.1) with hD
+  have hDp : D.Perm p := by
+    have := hperm.map Prod.fst
+    rwa [List.zipIdx_map_fst] at this
+  have hfm : (S.map (·.2)).filterMap (fun i => p[i]?) = D :=
+    filterMap_eq_map_of _ _ S (fun e he => List.mem_zipIdx_iff_getElem?.mp ((hperm.mem_iff).mp he))
+    |> fun h => by rw [List.filterMap_map]; exact h
+  have hdesc : D.Pairwise (fun a b => b < a) := by
+    rw [hfm] at hsorted
+    have hne : D.Nodup := hDp.nodup_iff.mpr hnd
+    have := hsorted.and hne
+    exact this.imp (fun {a b} h => by
+      obtain ⟨h1, h2⟩ := h
+      have h1' : b ≤ a := by simpa using h1
+      exact lt_of_le_of_ne h1' (Ne.symm h2))
+  have hkD : k < D.length := by simpa [hD] using hk
+  have hDk : D[k] = x := by simp [hD, hek]
+  have hcount := count_le_of_strict_desc D hdesc k hkD
+  rw [hDk, hDp.countP_eq, hDp.length_eq] at hcount
+  cases ho : out[i]? with
+  | none => simp [ho] at this
+  | some o =>
+    simp only [ho, eqb_iff] at this
+    rw [this, hcount]; simp
+
 end Bpp.VecTools
